@@ -257,6 +257,58 @@ class Prov:
                 self.check(g, resolve_place(g, {"l": 0, "p": []}), f"{g.file}:{g.line}", ctx + [f"return of {key.rsplit('::', 2)[-1]}"])
 
 
+def d4_origin(chk, F):
+    """Offsets are offsets into the CALLER's string: PullParser::new hands the `input` parameter itself to the front-matter
+    splitter and (directly, or as the remainder + its offset) to the tokenizer, stores it unchanged for slicing, and the public
+    parse entry points pass their own `input` through unchanged. A trimmed / stripped / re-allocated copy shifts every span."""
+    from cfgq import aggregates
+    from flow import leaves, show
+    fs = [f for f in F.funcs.values() if "parser::PullParser" in f.key and f.key.endswith("::new") and not f.is_closure() and f.crate == "cooklang"]
+    if len(fs) != 1:
+        chk.fail("anchor-missing", "PullParser::new", "", f"anchor-missing: PullParser::new found {len(fs)} times")
+        return
+    f = fs[0]
+    def is_param(e, name="input"):
+        while isinstance(e, tuple) and e[0] in ("ref", "place") and (e[0] == "ref" or all(p == "*" for p in e[2])):
+            e = e[1]
+        return isinstance(e, tuple) and e[0] == "param" and e[2] == name
+    n = 0
+    for b, t in f.calls():
+        k = callee_key(t) or ""
+        if k.endswith("frontmatter::parse_frontmatter"):
+            n += 1
+            chk.expect(is_param(resolve(f, t["args"][0])), "C04.D4-origin", "PullParser::new|parse_frontmatter(input)", f.where(b),
+                       f"the front-matter splitter receives {show(resolve(f, t['args'][0]), -50)[:80]} instead of the caller's input: its offsets are relative to another string",
+                       sample=f"{f.where(b)}: parse_frontmatter(input)")
+        if k.endswith("TokenStream::new"):
+            n += 1
+            e = resolve(f, t["args"][0])
+            txt = show(e, -50)
+            direct = is_param(e)
+            rest = txt.rstrip(")").endswith(".cooklang_text") and any(l.endswith("parse_frontmatter") for l in leaves(e))
+            if rest:
+                # the remainder must be re-based with its own offset
+                offs = [bb for bb, tt in f.calls() if (callee_key(tt) or "").endswith("TokenStream::offset")
+                        and show(resolve(f, tt["args"][1]), -50).rstrip(")").endswith(".cooklang_offset") and f.node_dominates(b, bb)]
+                rest = bool(offs)
+            chk.expect(direct or rest, "C04.D4-origin", "PullParser::new|TokenStream::new#" + ("direct" if direct else "remainder"), f.where(b),
+                       f"the tokenizer is started on {txt[:80]}, which is neither the caller's input nor the front-matter remainder re-based by cooklang_offset",
+                       sample=f"{f.where(b)}: tokens over " + ("input" if direct else "fm.cooklang_text + offset(fm.cooklang_offset)"))
+    chk.floor("C04.D4-origin", "tokenizer / splitter starts in PullParser::new", n, 3, f"{f.file}:{f.line}")
+    aggs = aggregates(F, f.key, "parser::PullParser")
+    chk.floor("C04.D4-origin", "PullParser constructions", len(aggs), 1, f"{f.file}:{f.line}")
+    for ff, i, st, d in aggs:
+        chk.expect(is_param(resolve(ff, d["input"])), "C04.D4-origin", "PullParser::new|input field", f"{ff.file}:{st.get('line')}",
+                   f"PullParser.input (the string spans are sliced from) is {show(resolve(ff, d['input']), -50)[:80]}, not the caller's input",
+                   sample=f"{ff.file}:{st.get('line')}: PullParser {{ input, .. }}")
+    callers = [(g, b, t) for g, kind, b, t in F.callers_of(f.key) if kind == "call" and g.crate == "cooklang" and not g.generated]
+    chk.floor("C04.D4-origin", "library callers of PullParser::new", len(callers), 2)
+    for g, b, t in callers:
+        chk.expect(is_param(resolve(g, t["args"][0])), "C04.D4-origin", f"{g.key.rsplit('::', 1)[-1]}|PullParser::new(input)", g.where(b),
+                   f"{g.key.rsplit('::', 1)[-1]} parses {show(resolve(g, t['args'][0]), -50)[:80]} instead of its own `input`: reported spans do not index the caller's string",
+                   sample=f"{g.where(b)}: PullParser::new(input, ..)")
+
+
 def run(chk: harness.Check):
     paths, th = harness.mir_facts("Q")
     F = Facts(paths)
@@ -270,9 +322,10 @@ def run(chk: harness.Check):
         "offset-holding fields (TokenStream.consumed, TextFragment.offset, FrontMatterSplit.*_offset, lexer Token.len, Cursor.len_remaining) and local helper "
         "functions move the obligation to all call sites / writes / returns until a fixed point. Every other node (± literal, subtraction, saturating_sub, "
         "multiplication, narrowing cast, foreign call) is reported unless its key (function, operator, detail) is reviewed in tables/span_arith.toml. "
-        "D2 compares, per fragment construction, the slice's lower bound with the fragment offset; D3 checks the tiling formula of TokenStream::next. "
+        "D4: PullParser::new and the public entry points pass the caller's `input` itself to the splitter, the tokenizer and the slicing field. D2 compares, per fragment construction, the slice's lower bound with the fragment offset; D3 checks the tiling formula of TokenStream::next. "
         "Necessary conditions: rules out the ±1-byte class, not wrong-but-valid spans.")
     chk.trusted = ["the lexer's Cursor advances by whole chars (token boundaries are char boundaries)", "tables/span_arith.toml", "std str search/len functions return char-boundary offsets of the searched string"]
+    d4_origin(chk, F)
     P = Prov(F)
     n_sinks = 0
     for k, f in sorted(F.funcs.items()):
